@@ -264,8 +264,17 @@ def observe(seam, fn, p, draws, pull):
         try:
             if fn == 'backoff':
                 ret = seam.iu.backoff(p['start'], p['stop'], **kw)
+                first = list(ret)
+                # the result belongs to the caller: changing it must not show in a second call with equal arguments
+                if isinstance(ret, list):
+                    ret.append('changed by the caller')
+                    del ret[:1]
+                seam.sr.load(draws)
+                second = list(seam.iu.backoff(p['start'], p['stop'], **kw))
                 signal.setitimer(signal.ITIMER_VIRTUAL, 0)
-                return 'done', list(ret)
+                if second != first:
+                    return 'second-call-differs', [first, second]
+                return 'done', first
             it = seam.iu.backoff_iter(p['start'], p['stop'], **kw)
             status = 'more'
             for _ in range(pull):
@@ -387,7 +396,10 @@ def check_case(seam, p, draws, repeat_items=REPEAT_ITEMS):
     if p['count'] == 'repeat' or status in ('more', 'hang'):
         return res
     status2, vals2 = observe(seam, 'backoff', p, draws, pull)
-    if (status2, vals2) != (status, vals):       # same outcome -> already judged above
+    if status2 == 'second-call-differs':
+        res.append(('C15|fn:backoff|second call with equal arguments differs after the caller changed the first result',
+                    vals2[0][:8], vals2[1][:8]))
+    elif (status2, vals2) != (status, vals):       # same outcome -> already judged above
         for what, exp, obs in judge(p, status2, vals2, repeat_items):
             res.append(('C15|fn:backoff|' + what, exp, obs))
     return res
